@@ -86,6 +86,15 @@ def _entry_post(c):
         # both present, both components populated on both sides and different => modified
         Implies(both & o_m.is_some & n_m.is_some & truthy_hi(o_hi) & truthy_hi(n_hi) & Not(msame & hsame), r == MODIFY),
     )
+    # the full table.  The statement fixes the rows above; for an entry present on BOTH sides it only says "as a comparison of
+    # hash and metadata dictates", and the remaining rows are pinned to what the code does (strongest postcondition: a row left
+    # free is a row that can change unnoticed): entries without metadata on either side are classified by their hashes,
+    # entries without a hash on either side by their metadata, every other difference is a modification
+    table = Ite(o.is_none & n.is_some, lift(ADD), Ite(o.is_some & n.is_none, lift(DELETE), Ite(o.is_none & n.is_none, lift(UNCHANGED),
+            Ite(o_m.is_none & n_m.is_none, hi_spec(o_hi, n_hi),
+                Ite(Not(truthy_hi(o_hi)) & Not(truthy_hi(n_hi)), meta_spec(o_m, n_m, c.meta_cmp_key),
+                    Ite(msame & hsame, lift(UNCHANGED), lift(MODIFY)))))))
+    default = And(default, r == table)
     return Ite(T(c.unknown), r == UNKNOWN,
                Ite(T(c.meta_only), r == meta_spec(o_m, n_m, c.meta_cmp_key),
                    Ite(T(c.hash_only), r == hi_spec(o_hi, n_hi), default)))
@@ -111,4 +120,14 @@ contract(
     props=["C08"],
     doc="the multiset of reported changes equals a flat key-by-key application of _diff_entry; renames pair one DELETE with one ADD "
         "of equal truthy hash, nothing lost or duplicated, no matching pair left unpaired (bounded run-time check)",
+)
+
+contract(
+    "dvc_data.index.update:update",
+    params={},
+    assumed=True, verify=False,
+    bounded=("bounded/index_update.py", 300, 5000),
+    props=["C13"],
+    doc="[bounded only] update(new, old) + md5(): a hash carried over by the metadata-based update equals the hash of the current bytes "
+        "(the per-entry rule 'unchanged => token unchanged' is the proved lemma unchanged_covers_token on _diff_meta)",
 )
